@@ -37,12 +37,16 @@ where
 
     storage::delete_saved_env_state(target).await?;
 
+    // The inputs are observed before the build starts:
+    // a change occurring while the build is running must not be recorded as built.
+    let input_state = TargetEnvState::current_input(target_input).await;
+
     let build_report = future.await?;
 
     match build_report {
         BuildTerminationReport::Cancelled => Ok(IncrementalRunResult::Cancelled),
         BuildTerminationReport::Completed => {
-            match TargetEnvState::current(target_input, target_output).await {
+            match TargetEnvState::with_current_output(input_state, target_output).await {
                 Ok(Some(env_state)) => {
                     if let Err(e) = storage::save_env_state(target, env_state).await {
                         log::warn!(
@@ -86,20 +90,28 @@ pub struct TargetEnvState {
 }
 
 impl TargetEnvState {
-    pub async fn current(
-        target_input: &Resources,
-        target_output: Option<&Resources>,
-    ) -> Result<Option<Self>> {
+    async fn current_input(target_input: &Resources) -> Result<Option<ResourcesState>> {
         if target_input.is_empty() {
             Ok(None)
         } else {
-            let input = ResourcesState::current(target_input).await?;
-            let output = match target_output {
-                Some(target_output) => Some(ResourcesState::current(target_output).await?),
-                None => None,
-            };
+            Ok(Some(ResourcesState::current(target_input).await?))
+        }
+    }
 
-            Ok(Some(TargetEnvState { input, output }))
+    async fn with_current_output(
+        input_state: Result<Option<ResourcesState>>,
+        target_output: Option<&Resources>,
+    ) -> Result<Option<Self>> {
+        match input_state? {
+            None => Ok(None),
+            Some(input) => {
+                let output = match target_output {
+                    Some(target_output) => Some(ResourcesState::current(target_output).await?),
+                    None => None,
+                };
+
+                Ok(Some(TargetEnvState { input, output }))
+            }
         }
     }
 
